@@ -696,7 +696,7 @@ func ProjectMem(nd *Node, u *Universe, height uint64) *Abs {
 			continue
 		}
 		ff := cs.FrozenFunds().GetFrozenFunds(h)
-		if ff == nil {
+		if ff == nil || ds.FrozenFunds.VerifDeleted(h) {
 			continue
 		}
 		for _, it := range ff.List {
